@@ -78,7 +78,8 @@ def gen_cases(tier, seed):
                     for rep in range(reps):
                         p = dict(sch)
                         p["sched_seed"] = r.randrange(1 << 30)
-                        yield {"family": "A", "name": name, "spec": spec, "args": ["--driver", driver, "-w", str(w)] + args, "driver": driver,
+                        noise = r.choice([[], [], [], ["--no-progress"], ["-v"], ["-vv"], ["--fsync"], ["--backup", "numbered"], ["--reflink", "never"]])
+                        yield {"family": "A", "name": name, "spec": spec, "args": ["--driver", driver, "-w", str(w)] + noise + args, "driver": driver,
                                "workers": w, "plan": p, "fs": "ext4"}
     # family B: baselines to expand
     variants = [0, 1] if tier == "quick" else [0, 1, 3, 4, 5]
@@ -97,7 +98,7 @@ def gen_cases(tier, seed):
     spec, margs = trees["multi-block"]
     for driver in ("parfile", "parblock"):
         for w in (1, 4):
-            for mode in ("cfr-eof", "uspace-eof", "cfr-eof-once"):
+            for mode in ("cfr-eof", "uspace-eof", "cfr-eof-once", "uspace-write-zero", "cfr-eintr"):
                 for k in (1, 3):
                     yield {"family": "D", "name": "early-eof:" + mode, "spec": spec, "args": ["--driver", driver, "-w", str(w)] + margs, "driver": driver,
                            "workers": w, "mode": mode, "k": k, "plan": {"sched": "free", "sched_seed": 1}, "fs": "ext4"}
@@ -193,6 +194,11 @@ def run_case(case):
                 rules = [{"id": "z", "sys": "copy_file_range", "under": U, "action": "retval", "val": 0, "from": case["k"]}]
             elif case["mode"] == "cfr-eof-once":
                 rules = [{"id": "z", "sys": "copy_file_range", "under": U, "action": "retval", "val": 0, "nth": case["k"]}]
+            elif case["mode"] == "uspace-write-zero":
+                rules = [{"id": "r", "sys": "copy_file_range", "under": U, "action": "fault", "errno": 18},
+                         {"id": "z", "sys": "write" if case["driver"] == "parfile" else "pwrite64", "under": U + "dst", "action": "retval", "val": 0, "from": case["k"]}]
+            elif case["mode"] == "cfr-eintr":
+                rules = [{"id": "z", "sys": "copy_file_range", "under": U, "action": "fault", "errno": 4, "from": case["k"]}]
             else:
                 rules = [{"id": "r", "sys": "copy_file_range", "under": U, "action": "fault", "errno": 18},
                          {"id": "z", "sys": "read" if case["driver"] == "parfile" else "pread64", "under": U, "action": "retval", "val": 0, "from": case["k"]}]
